@@ -13,7 +13,11 @@ Tie by regeneration: `_ensure_list_size`, `_set_by_path`, `apply_obligations` ar
 state, the cursor `cur` an access path into it, every store a functional update, every operation that can raise `Option`-valued); the
 per-run obligation `Run/C19_translated.lean` proves the translation equal to the model's `setByPath` / `applySpecs` — in particular
 that no subscript of the source raises on any tree — and the translation is evaluated against the real functions
-(`translated_vs_python`)."""
+(`translated_vs_python`).  `DecisionLogger.__init__` (normalisation), `_should_drop_by_sampling` and `log` are translated by
+`harness/pytolean_logger.py` (plugin `extractors/src_translation_logger.py`; floats as the model's `FNum`, `apply_obligations` and the size
+oracle as raising points of the nested try/except, "emit" as the result); `Run/C19_logger_translated.lean` proves them equal to the model's
+`LogCfg` / `shouldDrop` / `log`, `Run/C19_logger_composed.lean` composes the two translations, and `logger_translated_vs_python` runs the
+translation against the REAL `DecisionLogger`."""
 from __future__ import annotations
 
 import ast
@@ -975,6 +979,265 @@ def translated_vs_python(run: lib.Run) -> tuple[bool, str]:
     return bad == 0, f"{bad} of {len(calls)} evaluations differ" if bad else f"agree on {len(calls)} evaluations"
 
 
+# ----------------------------------------------------------------------------- the translated logger vs the real DecisionLogger
+
+
+def fnum_text(f: float) -> str:
+    """the exact order embedding of a double (the model's FNum): x·2^1074 as a decimal integer, ±2^2100 for ±inf, "nan" """
+    if f != f:
+        return "nan"
+    if math.isinf(f):
+        return str((1 if f > 0 else -1) * 2**2100)
+    n, d = f.as_integer_ratio()
+    assert (n * 2**1074) % d == 0
+    return str(n * 2**1074 // d)
+
+
+MALFORMED_SPECS = [
+    [5], ["mask_fields"], [None],
+    [{"type": "mask_fields", "fields": ["subject.id"]}, 7],
+    [{"type": "redact_fields", "fields": ["context.ip", "subject.attrs.password"]}, {"type": "mask_fields", "fields": 5}],
+    [{"type": "mask_fields", "fields": True}],
+    [{"type": "redact_fields", "fields": ["subject.attrs.email"]}, {"type": "mask_fields", "fields": ["subject.id"], "placeholder": "#"}, "x"],
+]
+MULTIBYTE_ENVS = [
+    {"subject": {"id": "ü", "attrs": {"password": "пароль", "email": "é@x"}}, "context": {"ip": "日本語"}},
+    {"\U0001f511": "\U0001f600" * 3, "context": {"ip": "10.0.0.1", "note": "é" * 5}},
+    {"subject": {"attrs": {"token": "t"}}, "k": ["ß", {"я": 1.5}]},
+]
+
+
+def logger_translated_jobs(run: lib.Run, defaults: list):
+    """logger cases `{cfg, payload, draw}` for the translated-logger comparison: the rate × draw × category × strategy grid and the
+    redactions × use_default × in_place × as_json grid of the correspondence check, draws at 0.0 / the largest double below 1 / the rate
+    itself, size bounds around the exact UTF-8 size of multi-byte envs (and non-int / non-positive bounds), malformed spec lists that make
+    apply_obligations raise (after a well-formed spec, with and without in_place), envs json.dumps cannot serialise, seeded random configs"""
+    quick = run.tier == "quick"
+    for c in corpus_cases():
+        if c["kind"] == "logger":
+            yield c
+    yield from sampling_cases()
+    yield from priority_cases(defaults)
+    base_payload = {"decision": "permit", "allowed": True, "rule_id": "r"}
+    # size bounds around the exact size, every redaction source
+    for env in MULTIBYTE_ENVS:
+        for red in ("absent", [], [{"type": "mask_fields", "fields": ["context.ip", "subject.attrs.password"], "placeholder": "█"}], "default"):
+            for ip in (False, True):
+                cfg = {**BASE_CFG, "in_place": ip, "as_json": ip}
+                if red == "default":
+                    cfg["use_default"] = True
+                elif red != "absent":
+                    cfg["redactions"] = red
+                probe = {"kind": "logger", "cfg": cfg, "payload": {**base_payload, "env": env}, "draw": 0.5, "secrets": []}
+                for b in bounds_for(probe, defaults) + [0, -5, True, False, 10.0, "100", None]:
+                    yield {**probe, "cfg": {**cfg, "max_env_bytes": b}}
+    # apply_obligations raises: the outer `except` emits env_obj as it is then
+    for specs in MALFORMED_SPECS:
+        for ip in (False, True):
+            for mb in (None, 1, 10**6):
+                for aj in (False, True):
+                    yield {"kind": "logger", "cfg": {**BASE_CFG, "redactions": specs, "in_place": ip, "max_env_bytes": mb, "as_json": aj},
+                           "payload": {**base_payload, "env": SMALL_ENV}, "draw": 0.25, "secrets": []}
+    # json.dumps raises on the env (a datetime): the inner `except` keeps the redacted env
+    from datetime import datetime, timezone
+    for when in (datetime(2024, 5, 6, 7, 8, 9), datetime(2024, 1, 1, tzinfo=timezone.utc)):
+        env = {"subject": {"id": "u", "attrs": {"password": "p"}}, "context": {"ip": "::1", "at": when}}
+        for red in ("absent", [{"type": "redact_fields", "fields": ["subject.attrs.password"]}], [{"type": "redact_fields", "fields": ["context.at"]}], "default"):
+            for mb in (None, 1, 10**6):
+                for ip in (False, True):
+                    cfg = {**BASE_CFG, "in_place": ip, "max_env_bytes": mb}
+                    if red == "default":
+                        cfg["use_default"] = True
+                    elif red != "absent":
+                        cfg["redactions"] = red
+                    yield {"kind": "logger", "cfg": cfg, "payload": {**base_payload, "env": env}, "draw": 0.0, "secrets": []}
+    r = random.Random(run.seed * 7919 + 1921)
+    yield from size_cases(r, (40 if quick else 400) * run.boost, defaults)
+    yield from random_logger_cases(r, (500 if quick else 6000) * run.boost, defaults)
+
+
+def _init_line(cfg: dict) -> dict:
+    rates = cfg.get("rates")
+    return {"sample_rate": fnum_text(float(cfg["sample_rate"])), "redactions": proto.enc(cfg["redactions"]) if "redactions" in cfg else None,
+            "redact_in_place": proto.enc(cfg["in_place"]), "use_default_redactions": proto.enc(cfg["use_default"]),
+            "smart_sampling": proto.enc(cfg["smart"]),
+            "category_sampling_rates": None if rates is None else [[k, fnum_text(float(v))] for k, v in rates.items()],
+            "max_env_bytes": proto.enc(cfg["max_env_bytes"])}
+
+
+def _record_of(msg: str, as_json: bool) -> Any:
+    """the record `safe` back from the message handed to `logging.Logger.log` (JSON, or `decision <repr of the dict>`)"""
+    import datetime as _dt
+    if as_json:
+        return json.loads(msg)
+    if not msg.startswith("decision "):
+        raise ValueError("prefix")
+    return eval(msg[len("decision "):], {"__builtins__": {}, "datetime": _dt, "nan": float("nan"), "inf": float("inf")})  # noqa: S307
+
+
+def real_logger_run(c: dict) -> dict:
+    """the REAL DecisionLogger on one case: attributes after __init__, `_should_drop_by_sampling`, and `log` with `random.random`, the
+    record handed to `logging.Logger.log` and the call of `apply_obligations` (arguments, outcome, state of its first argument afterwards) captured"""
+    cfg = c["cfg"]
+    res: dict[str, Any] = {}
+    saved_random, saved_apply = dl.random, dl.apply_obligations
+    rec: dict[str, Any] = {}
+
+    def spy(payload, obligations, *, in_place=False):
+        rec["args"] = copy.deepcopy([payload, obligations, in_place])
+        rec["n"] = rec.get("n", 0) + 1
+        try:
+            out = saved_apply(payload, obligations, in_place=in_place)
+        except Exception:
+            rec["raised"] = True
+            rec["arg"] = copy.deepcopy(payload)
+            raise
+        rec["returned"] = copy.deepcopy(out)
+        rec["arg"] = copy.deepcopy(payload)
+        return out
+
+    try:
+        lg = dl.DecisionLogger(**logger_kwargs(cfg))
+        res["init"] = {"sample_rate": fnum_text(lg.sample_rate), "redactions_provided": proto.enc(lg._redactions_provided),
+                       "redactions": proto.enc(lg.redactions), "redact_in_place": proto.enc(lg.redact_in_place),
+                       "use_default_redactions": proto.enc(lg.use_default_redactions), "smart_sampling": proto.enc(lg.smart_sampling),
+                       "sample_strategy": [[k, fnum_text(float(v))] for k, v in lg.sample_strategy.items()],
+                       "max_env_bytes": proto.enc(lg.max_env_bytes)}
+        dl.random = types.SimpleNamespace(random=lambda: c["draw"])
+        res["should_drop"] = lg._should_drop_by_sampling(copy.deepcopy(c["payload"]))
+        dl.apply_obligations = spy
+        payload = copy.deepcopy(c["payload"])
+        env_before = copy.deepcopy(dict(payload.get("env") or {}))
+        with audit_capture() as cap:
+            try:
+                lg.log(payload)
+            except Exception as e:  # noqa: BLE001
+                res["log_raised"] = type(e).__name__
+        msgs = [r_.getMessage() for r_ in cap.records if r_.levelno == lg.level]
+        if "log_raised" not in res:
+            if not msgs:
+                res["dropped"] = True
+            else:
+                res["emitted"] = _record_of(msgs[0], cfg["as_json"])
+        if rec:
+            res["apply"] = rec
+        sizes = [env_before] + ([rec["arg"]] if "arg" in rec else []) + ([rec["returned"]] if "returned" in rec else [])
+        res["sizes"] = sizes
+    finally:
+        dl.random, dl.apply_obligations = saved_random, saved_apply
+    return res
+
+
+def logger_translated_vs_python(run: lib.Run, defaults: list) -> tuple[bool, str]:
+    """the translated logger (Generated.Src.logger_init / should_drop / logger_log, evaluated by `lake env lean --run
+    Rbacx/Run/SrcEvalLogger.lean`) against the REAL `DecisionLogger`: the attributes `__init__` leaves, the value of
+    `_should_drop_by_sampling`, and for `log` dropped / the record handed to `logging.Logger.log` (parsed back from the message, dict key order
+    included).  The external `apply_obligations` is answered (a) by the outcome of the REAL call (returned value / raised, and what its
+    first argument looks like afterwards) and (b), when the real call returned, by the TRANSLATED enforcer `Src.apply_obligations`; the size
+    oracle by the stdlib.  Validates harness/pytolean_logger.py and Model/PyLogger.lean, the two things the obligation
+    C19_logger_translated trusts."""
+    import subprocess
+    jobs: list[tuple[dict, dict]] = []
+    lines: list[str] = []
+    index: list[tuple[int, str]] = []
+    seen_init: set[str] = set()
+    harness_errors = 0
+    for c in logger_translated_jobs(run, defaults):
+        try:
+            init = _init_line(c["cfg"])
+            payload = proto.enc(c["payload"])
+        except TypeError:
+            continue                      # a value outside the codec (not generated on purpose)
+        try:
+            real_out = real_logger_run(c)
+            json.dumps([proto.enc(v) for v in real_out["sizes"]] + [proto.enc(x) for k in ("args", "arg", "returned")
+                                                                     for x in [real_out.get("apply", {}).get(k)] if x is not None])
+        except Exception as e:  # noqa: BLE001
+            # the constructor / the sampling method raised, or produced something outside the codec: the translation says neither happens
+            harness_errors += 1
+            run.count("translated-logger: the real DecisionLogger could not be run on the case")
+            if harness_errors == 1:
+                run.disagreements.append({"part": "translated logger vs python", "function": "run", "case": {k: v for k, v in c.items() if k != "py_covered"},
+                                          "impl": {"raised": f"{type(e).__name__}: {e}"[:300]}, "model": None,
+                                          "what": "the real DecisionLogger raised outside log() (constructor / _should_drop_by_sampling) or handed "
+                                                  "apply_obligations a value outside the JSON domain; the translated one does not"})
+            continue
+        j = len(jobs)
+        jobs.append((c, real_out))
+        key = json.dumps(init, sort_keys=True)
+        if key not in seen_init:
+            seen_init.add(key)
+            lines.append(json.dumps({"fn": "init", "init": init}))
+            index.append((j, "init"))
+        draw = fnum_text(c["draw"])
+        lines.append(json.dumps({"fn": "should_drop", "init": init, "draw": draw, "payload": payload}))
+        index.append((j, "should_drop"))
+        if "log_raised" in real_out:
+            continue
+        ap = real_out.get("apply")
+        apj = None
+        if ap is not None:
+            apj = {"args": [proto.enc(x) for x in ap["args"]], "arg": proto.enc(ap["arg"])}
+            if ap.get("raised"):
+                apj["raised"] = True
+            else:
+                apj["returned"] = proto.enc(ap["returned"])
+        sizes = [size_entry(v) for v in real_out["sizes"]]
+        base = {"fn": "log", "init": init, "draw": draw, "payload": payload, "sizes": sizes}
+        lines.append(json.dumps({**base, "apply": apj}))
+        index.append((j, "log"))
+        if ap is None or not ap.get("raised"):
+            lines.append(json.dumps({**base, "compose": True}))
+            index.append((j, "log-composed"))
+    p = subprocess.run(["lake", "env", "lean", "--run", "Rbacx/Run/SrcEvalLogger.lean"], cwd=lib.LEAN, input="\n".join(lines) + "\n",
+                       capture_output=True, text=True, timeout=900)
+    outs = [ln for ln in p.stdout.split("\n") if ln]
+    if p.returncode != 0 or len(outs) != len(lines):
+        return False, "SrcEvalLogger: " + (p.stderr or p.stdout)[-800:]
+    bad = 0
+    for (j, what), ln in zip(index, outs):
+        c, real_out = jobs[j]
+        got = json.loads(ln)
+        if "error" in got:
+            return False, f"SrcEvalLogger: {ln[:300]}"
+        run.count("translated-logger")
+        if what == "init":
+            same = got == real_out["init"]
+            run.count("translated-logger: __init__ normalisation")
+        elif what == "should_drop":
+            same = got.get("value") is real_out["should_drop"]
+            run.count("translated-logger: _should_drop_by_sampling " + ("drop" if real_out["should_drop"] else "keep"))
+        else:
+            ap = real_out.get("apply")
+            if "dropped" in real_out:
+                same = got.get("dropped") is True
+                cls = "dropped"
+            else:
+                env = real_out["emitted"].get("env") if isinstance(real_out["emitted"], dict) else None
+                cls = ("truncated" if isinstance(env, dict) and env.get("_truncated") is True and set(env) == {"_truncated", "size_bytes"}
+                       else "apply_obligations raised: env as is" if ap and ap.get("raised")
+                       else "size oracle raised: redacted env kept" if c["cfg"].get("max_env_bytes") not in (None, 0) and jsize(env) is None
+                       else "redacted" if ap else "no redaction")
+                try:
+                    same = "emitted" in got and json.dumps(got["emitted"], separators=(",", ":")) == proto.canon(real_out["emitted"])
+                except TypeError:
+                    same = False          # the real record holds a value outside the JSON domain
+            run.count(f"translated-logger: {what} " + cls)
+        if not same:
+            bad += 1
+            if bad == 1:
+                run.disagreements.append({"part": "translated logger vs python", "function": what, "case": {k: v for k, v in c.items() if k != "py_covered"},
+                                          "impl": {k: v for k, v in real_out.items() if k != "sizes"}, "model": got,
+                                          "what": f"the translated DecisionLogger ({what}; Generated.Src, logger translation) and the real one differ"})
+    n_raised = sum(1 for _, ro in jobs if "log_raised" in ro)
+    if n_raised:
+        run.count("translated-logger: the real log raised (rendering of an unserialisable record as JSON: the emit effect; not judged)", n_raised)
+    run.evaluations += len(lines)
+    if harness_errors:
+        return False, f"the real DecisionLogger could not be run on {harness_errors} cases; {bad} of {len(lines)} evaluations differ"
+    return bad == 0, f"{bad} of {len(lines)} evaluations differ" if bad else f"agree on {len(lines)} evaluations ({len(jobs)} cases)"
+
+
 # ----------------------------------------------------------------------------- check / replay
 
 
@@ -1119,10 +1382,31 @@ def check(run: lib.Run, audit: dict) -> int:
         ok_py, detail_py = translated_vs_python(run)
     run.obligation("translated enforcer evaluates like the real _set_by_path / apply_obligations (translator + Model/PyCursor.lean vs CPython)",
                    ok_py, detail_py)
+    # the logger as it is written NOW (__init__ normalisation, _should_drop_by_sampling, log), translated into Lean, is proved equal to the model's
+    trl = audit["facts"].get("translated_logger")
+    untranslatable_l = isinstance(trl, dict) and "extraction_failed" in trl
+    ok_lg, detail_lg = lib.run_obligation("C19_logger_translated")
+    run.obligation("C19_logger_translated: Generated.Src.logger_init / Src.should_drop / Src.logger_log (the current source text of DecisionLogger.__init__, "
+                   "_should_drop_by_sampling and log; typed reading of floats, try/except with apply_obligations and the size oracle as raising points, "
+                   "emit as the result) = the model's LogCfg / shouldDrop / log, for every constructor argument tuple, payload whose env is a dict or "
+                   "falsy, draw and size oracle — dropped / emitted record, the two except fall-backs included", ok_lg,
+                   "discharged" if ok_lg else (str(trl["extraction_failed"]) if untranslatable_l else detail_lg))
+    if ok_tr and ok_lg:
+        ok_lc, detail_lc = lib.run_obligation("C19_logger_composed", deps=["C19_translated", "C19_logger_translated"])
+    else:
+        ok_lc, detail_lc = False, "not attempted: " + " and ".join(n for n, o in (("C19_translated", ok_tr), ("C19_logger_translated", ok_lg)) if not o) + " undischarged"
+    run.obligation("C19_logger_composed: the translated log with the TRANSLATED enforcer Src.apply_obligations as its external = the model's log, "
+                   "for documented (plainSpec) effective redaction specs", ok_lc, "discharged" if ok_lc else detail_lc)
+    if untranslatable_l or not isinstance(trl, dict):
+        ok_lpy, detail_lpy = True, "skipped: the logger is not in the translatable subset (see C19_logger_translated)"
+    else:
+        ok_lpy, detail_lpy = logger_translated_vs_python(run, defaults)
+    run.obligation("translated logger evaluates like the real DecisionLogger: attributes after __init__, _should_drop_by_sampling, dropped / the record "
+                   "handed to logging.Logger.log (translator + Model/PyLogger.lean vs CPython)", ok_lpy, detail_lpy)
     keep: list[dict] = []
     run_cases(run, defaults, keep=keep)
     overlapping_records(run)
-    if (run.disagreements or not ok_tr) and not run.spec_failures:
+    if (run.disagreements or not ok_tr or not ok_lg or not ok_lc) and not run.spec_failures:
         run_cases(run, defaults, scale=5)   # correspondence / the translation tie broke: widen the search for a failing input
     try:
         run.extra["anchored_line_coverage"] = anchored_coverage(keep)
@@ -1151,10 +1435,22 @@ def check(run: lib.Run, audit: dict) -> int:
                     "about; the widened search found no payload, path and spec list on which the redaction spec is violated",
             "translation": tr, "lean": detail_tr[-1500:], "first_disagreement": run.disagreements[:1]})
         violations.append((path, False))
-    elif run.disagreements or not ok_py:
-        first = run.disagreements[0] if run.disagreements else {"part": "translated source vs python", "what": detail_py}
+    elif not ok_lg or not ok_lc:
+        which = "C19_logger_translated" if not ok_lg else "C19_logger_composed"
+        path = run.write_replay("obligation", {
+            "what": f"per-run obligation Rbacx/Run/{which}.lean no longer checks: the translated source of DecisionLogger.__init__ / "
+                    "_should_drop_by_sampling / log is not proved equal to the model's LogCfg / shouldDrop / log, the functions theorems "
+                    "Rbacx.C19.c19_priority / c19_sampling / c19_smart_defaults / c19_size_bound / c19_no_leak are about; the widened search found no "
+                    "configuration, payload and draw on which the logger spec is violated",
+            "translation": trl, "lean": (detail_lg if not ok_lg else detail_lc)[-1500:], "first_disagreement": run.disagreements[:1]})
+        violations.append((path, False))
+    elif run.disagreements or not ok_py or not ok_lpy:
+        first = run.disagreements[0] if run.disagreements else (
+            {"part": "translated source vs python", "what": detail_py} if not ok_py else {"part": "translated logger vs python", "what": detail_lpy})
         path = run.write_replay("correspondence", {
-            "what": ("translated source vs python: " + str(first.get("what")) + "; the obligation C19_translated rests on a translation that "
+            "what": ("translated logger vs python: " + str(first.get("what")) + "; the obligation C19_logger_translated rests on a translation that "
+                     "CPython contradicts (or that could not be evaluated)") if first.get("part") == "translated logger vs python" else
+                    ("translated source vs python: " + str(first.get("what")) + "; the obligation C19_translated rests on a translation that "
                      "CPython contradicts (or that could not be evaluated)") if first.get("part") == "translated source vs python" else
                     "model (Rbacx.Redact.setByPath / applySpecs / log) and implementation disagree on the emitted env / dropped flag; "
                     "theorems Rbacx.C19.* no longer speak about this code", "first": first, "count": len(run.disagreements)})
@@ -1177,6 +1473,11 @@ def replay(run: lib.Run, audit: dict, path: str) -> int:
             now = f"raised {type(e).__name__}"
         print(f0["function"], "now:", json.dumps(now, default=str)[:1500], "recorded:", json.dumps(f0.get("impl"), default=str)[:1500],
               "translated:", json.dumps(f0.get("model"), default=str)[:1500])
+        return 1
+    if f0.get("part") == "translated logger vs python":
+        now = real_logger_run(f0["case"])
+        print(f0["function"], "now:", json.dumps({k: v for k, v in now.items() if k != "sizes"}, default=str)[:1500], "recorded:",
+              json.dumps(f0.get("impl"), default=str)[:1500], "translated:", json.dumps(f0.get("model"), default=str)[:1500])
         return 1
     if "case" not in rp and "first" not in rp:
         print("recorded:", json.dumps(rp, default=str)[:2000])
